@@ -49,9 +49,7 @@ def gen_registry():
 
 def make_overlays(prop, workdir):
     """Generated source overlays (regenerated from /repo's current files)."""
-    gen = prop.get('overlays')
-    if not gen:
-        return None, []
+    gen = ['access', 'noopt']
     import overlays
     mapping, notes = overlays.generate(gen, workdir)
     path = os.path.join(workdir, 'overlay.json')
